@@ -54,6 +54,7 @@ type sOp struct {
 	Extra     uint64 `json:"x,omitempty"`
 	Outcome   int    `json:"o,omitempty"` // 0 done, 1 failure, 2 alternate, 3 prepare-less disband
 	Yield     int    `json:"y,omitempty"`
+	HoldMs    int    `json:"h,omitempty"` // keep the session for this long before finishing (longer than the 30 ms lock patience)
 	NewCU     uint64 `json:"ncu,omitempty"`
 	NewEpoch  uint64 `json:"ne,omitempty"`
 }
@@ -77,6 +78,7 @@ type keyState struct {
 	dones    []uint64 // relay numbers in completion order
 	doneCU   uint64   // CU of completed relays
 	ptrs     map[*lavasession.SingleProviderSession]bool
+	workers  map[int]bool // workers that acquired this session successfully
 	updated  bool // UpdateSessionCU addressed this session
 }
 
@@ -211,6 +213,9 @@ func genStressCase(t *rapid.T) stressCase {
 						Outcome:   rapid.SampledFrom([]int{0, 0, 1, 2, 2, 2, 3}).Draw(t, "outcome"),
 						Yield:     rapid.SampledFrom([]int{0, 0, 1, 3, 20}).Draw(t, "yield"),
 					}
+					if op.Repeat == 1 && rapid.IntRange(0, 7).Draw(t, "hold") == 0 {
+						op.HoldMs = 35
+					}
 					script = append(script, op)
 				}
 			}
@@ -259,6 +264,7 @@ func (r *stressRun) doRelay(wi int, op sOp, iter int) {
 	}
 	st.mu.Lock()
 	isNew := !st.ptrs[sess]
+	st.workers[wi] = true
 	st.ptrs[sess] = true
 	nptr := len(st.ptrs)
 	st.mu.Unlock()
@@ -321,6 +327,9 @@ func (r *stressRun) doRelay(wi int, op sOp, iter int) {
 	for i := 0; i < op.Yield; i++ {
 		runtime.Gosched()
 	}
+	if op.HoldMs > 0 {
+		time.Sleep(time.Duration(op.HoldMs) * time.Millisecond)
+	}
 	fail := op.Outcome == 1 || (op.Outcome == 2 && iter%2 == 1)
 	if fail {
 		release(func() error { return r.psm.OnSessionFailure(sess, relayNum) }, "OnSessionFailure")
@@ -381,6 +390,21 @@ func (r *stressRun) prologue(round sRound) {
 	seen := map[ce]bool{}
 	seenKey := map[skey]bool{}
 	exclDup := ev.Excluded(findingDupSession)
+	// the excluded class is "concurrent first use of ONE new session id": only ids that two or more
+	// workers of the round address are created beforehand; ids addressed by a single worker are
+	// still created concurrently with the other workers' calls.
+	users := map[skey]map[int]bool{}
+	for wi, script := range round.Scripts {
+		for _, op := range script {
+			if op.Kind != "epoch" {
+				k, _ := r.ks(op.Consumer, op.Epoch, op.Sid)
+				if users[k] == nil {
+					users[k] = map[int]bool{}
+				}
+				users[k][wi] = true
+			}
+		}
+	}
 	for _, script := range round.Scripts {
 		for _, op := range script {
 			if op.Kind == "epoch" || op.Epoch <= r.blocked() {
@@ -394,7 +418,7 @@ func (r *stressRun) prologue(round sRound) {
 				}
 			}
 			k, _ := r.ks(op.Consumer, op.Epoch, op.Sid)
-			if exclDup && !seenKey[k] {
+			if exclDup && !seenKey[k] && len(users[k]) > 1 {
 				seenKey[k] = true
 				sess, _, err := w.acquire(r.psm, op.Consumer, op.Epoch, op.Sid, ^uint64(0)>>1)
 				if err == nil {
@@ -485,7 +509,7 @@ func runStress(sc stressCase, c *ev.Collector) (viol []string, run *stressRun) {
 			r.accepts[pkey{e, p}] = new(int64)
 			r.projBusy[pkey{e, p}] = new(int32)
 			for sid := 1; sid <= w.Sessions; sid++ {
-				r.keys[skey{e, p, uint64(sid)}] = &keyState{ptrs: map[*lavasession.SingleProviderSession]bool{}}
+				r.keys[skey{e, p, uint64(sid)}] = &keyState{ptrs: map[*lavasession.SingleProviderSession]bool{}, workers: map[int]bool{}}
 			}
 		}
 	}
@@ -577,7 +601,16 @@ func propC27Stress(t *rapid.T) {
 		}
 	}
 	if r.contended > 0 {
-		cls = append(cls, "stress-session-lock-contention")
+		cls = append(cls, "stress-session-lock-wait-exceeded")
+	}
+	sameKey := false
+	for _, st := range r.keys {
+		if len(st.workers) >= 2 {
+			sameKey = true
+		}
+	}
+	if sameKey {
+		cls = append(cls, "stress-one-session-several-workers")
 	}
 	if r.overlap > 0 {
 		cls = append(cls, "stress-overlapping-relays-one-project")
@@ -599,7 +632,7 @@ func propC27Stress(t *rapid.T) {
 		}
 	}
 out:
-	nontrivial := sharedAccepts && (r.overlap > 0 || r.contended > 0)
+	nontrivial := sharedAccepts && (r.overlap > 0 || r.contended > 0 || sameKey)
 	fp, _ := json.Marshal(sc)
 	c.Case(nontrivial, "stress:"+string(fp), cls...)
 	if nontrivial {
